@@ -42,6 +42,13 @@ def unit_probe(rng, acc):
     for a in assets:
         r = rng.random()
         entries[a] = None if r < 0.15 else base + pd.Timedelta(days=rng.randint(-30, 30), minutes=rng.choice([0, 0, 1, 870, 1260]))
+    if rng.random() < 0.2:
+        # entry instants as they come out of other sources: built from a date (second resolution) or from a
+        # nanosecond-resolution column - the same instants, other units
+        for a in rng.sample(assets, rng.randint(1, len(assets))):
+            if entries[a] is not None:
+                entries[a] = entries[a].as_unit(rng.choice(['s', 'ms', 'ns'])) if rng.random() < 0.7 else \
+                    pd.Timestamp(entries[a].date(), tz='UTC')
     if rng.random() < 0.12:
         entries[rng.choice(assets)] = pd.NaT           # "no entry date" as a date table gives it (a null timestamp)
     if rng.random() < 0.15:
